@@ -323,6 +323,102 @@ theorem C18_mode_pinned_witness :
       remapEntries {} (some (Str.ofString "create")) files (Str.ofString "Linux") [d1, d2] = some [d2] := by
   decide
 
+/-! ## the `dummy` branch of `remapEntries` -/
+
+/-- an entry that makes `remapEntries` look for (and, if it is missing, declare) the product `pn` in version `dummy`:
+the mapping changes the entry, and the new version is the word `dummy` -/
+def DummyTrigger (m : Mapping) (fl : Str) (d : Dep) (pn : Str) : Prop :=
+  m.apply d.product d.version fl = (pn, some sDummy) ∧ (pn, sDummy) ≠ (d.product, d.version)
+
+/-- **`remapEntries` declares exactly the missing `dummy` products its table names.**  For every mapping, flavor,
+set of already declared `dummy` products and manifest: a product is declared iff it was not declared before and
+some entry of the manifest is changed by the mapping into that product at version `dummy`; entries deleted, left
+alone, changed into another version, or already at that `product dummy` declare nothing, and neither does a name
+that `Eups.declare` refuses (`legalName`). -/
+theorem C18_dummy_declares_exact (m : Mapping) (fl : Str) (deps : List Dep) : ∀ (known : List Str) (pn : Str),
+    pn ∈ dummyDeclares m fl known deps ↔ pn ∉ known ∧ legalName pn = true ∧ ∃ d ∈ deps, DummyTrigger m fl d pn := by
+  induction deps with
+  | nil => intro known pn; simp [dummyDeclares]
+  | cons d rest ih =>
+    intro known pn
+    unfold dummyDeclares
+    rcases hr : m.apply d.product d.version fl with ⟨qn, _ | vn⟩
+    · -- deleted
+      simp only [ih known pn, List.mem_cons, exists_eq_or_imp]
+      constructor
+      · rintro ⟨h1, hl, h2⟩; exact ⟨h1, hl, Or.inr h2⟩
+      · rintro ⟨h1, hl, h2 | h2⟩
+        · exact absurd h2.1 (by rw [hr]; simp)
+        · exact ⟨h1, hl, h2⟩
+    · by_cases hc : ((qn, vn) != (d.product, d.version) && vn == sDummy && !known.contains qn && legalName qn) = true
+      · simp only [hc, if_true, List.mem_cons, ih (known ++ [qn]) pn, exists_eq_or_imp]
+        simp only [Bool.and_eq_true, bne_iff_ne, ne_eq, beq_iff_eq, Bool.not_eq_true', List.contains_eq_mem,
+          decide_eq_false_iff_not] at hc
+        obtain ⟨⟨⟨hne, hv⟩, hk⟩, hleg⟩ := hc
+        subst hv
+        have htrig : DummyTrigger m fl d qn := ⟨hr, hne⟩
+        constructor
+        · rintro (h | ⟨h1, hl, h2⟩)
+          · subst h; exact ⟨hk, hleg, Or.inl htrig⟩
+          · exact ⟨fun hm => h1 (by simp [hm]), hl, Or.inr h2⟩
+        · rintro ⟨h1, hl, h2 | h2⟩
+          · left
+            have := h2.1; rw [hr] at this
+            exact (Prod.mk.inj this).1.symm
+          · by_cases he : pn = qn
+            · left; exact he
+            · right; exact ⟨by simpa [he] using h1, hl, h2⟩
+      · have hc' : ((qn, vn) != (d.product, d.version) && vn == sDummy && !known.contains qn && legalName qn) = false := by
+          simpa using hc
+        simp only [hc', Bool.false_eq_true, if_false, ih known pn, List.mem_cons, exists_eq_or_imp]
+        constructor
+        · rintro ⟨h1, hl, h2⟩; exact ⟨h1, hl, Or.inr h2⟩
+        · rintro ⟨h1, hl, h2 | h2⟩
+          · exfalso
+            have h3 := h2.1; rw [hr] at h3
+            obtain ⟨e1, e2⟩ := Prod.mk.inj h3
+            have e2' : vn = sDummy := Option.some.inj e2
+            subst e1; subst e2'
+            have : ((qn, sDummy) != (d.product, d.version) && sDummy == sDummy && !known.contains qn && legalName qn) = true := by
+              simp only [Bool.and_eq_true, bne_iff_ne, ne_eq, beq_self_eq_true, Bool.not_eq_true', List.contains_eq_mem,
+                decide_eq_false_iff_not, and_true]
+              exact ⟨⟨h2.2, h1⟩, hl⟩
+            rw [this] at hc'; cases hc'
+          · exact ⟨h1, hl, h2⟩
+
+/-- no product is declared twice in one call -/
+theorem C18_dummy_declares_nodup (m : Mapping) (fl : Str) (deps : List Dep) : ∀ known : List Str,
+    (dummyDeclares m fl known deps).Nodup := by
+  induction deps with
+  | nil => intro _; simp [dummyDeclares]
+  | cons d rest ih =>
+    intro known
+    unfold dummyDeclares
+    rcases hr : m.apply d.product d.version fl with ⟨qn, _ | vn⟩
+    · exact ih known
+    · simp only
+      split
+      · refine List.nodup_cons.mpr ⟨?_, ih _⟩
+        intro hmem
+        have := (C18_dummy_declares_exact m fl rest (known ++ [qn]) qn).mp hmem
+        exact this.1 (by simp)
+      · exact ih known
+
+/-- Non-vacuity (the example of the code's own documentation): `tcltk:any -> dummy:1.0` does not trigger the branch
+(the version is `1.0`), `tcltk:any -> tcltk:dummy` and `afw:1.0 -> stub:dummy` do; `stub` is declared once although
+two entries name it; a product already declared is not declared again. -/
+example :
+    let m := buildMapping false [
+      { inP := Str.ofString "tcltk", inV := sAny, outP := none, outV := some sDummy, flavor := sGeneric },
+      { inP := Str.ofString "afw", inV := Str.ofString "1.0", outP := some (Str.ofString "stub"), outV := some sDummy, flavor := sGeneric },
+      { inP := Str.ofString "utils", inV := sAny, outP := some (Str.ofString "stub"), outV := some sDummy, flavor := sGeneric },
+      { inP := Str.ofString "tk", inV := sAny, outP := some sDummy, outV := some (Str.ofString "1.0"), flavor := sGeneric }]
+    let dep := fun (p v : String) => mkDep (Str.ofString p) (Str.ofString v) none none none none false false []
+    let deps := [dep "tcltk" "8.5", dep "afw" "1.0", dep "utils" "2.0", dep "tk" "8.5", dep "python" "2.6"]
+    dummyDeclares m (Str.ofString "Linux") [] deps = [Str.ofString "tcltk", Str.ofString "stub"] ∧
+      dummyDeclares m (Str.ofString "Linux") [Str.ofString "stub"] deps = [Str.ofString "tcltk"] := by
+  decide
+
 /-! ## inverse -/
 
 /-- one-to-one: no two entries of the table (of one flavor) have the same image -/
@@ -372,6 +468,114 @@ example :
     (buildMapping false [
       { inP := [97], inV := [49], outP := some [99], outV := some [49], flavor := sGeneric },
       { inP := [98], inV := [49], outP := some [99], outV := some [49], flavor := sGeneric }]).inverse.isNone = true := by
+  decide
+
+/-- **C18, inverse, at the level of `Mapping.apply` (with the `generic` fallback in both directions).**  For a
+one-to-one mapping of explicit versions and *every* flavor `f`: each entry `p:v -> q:w` of the table of `f` that is
+not an identity is applied by `apply` — not only by the per-flavor look-up — and `inverse().apply` takes `q:w` back
+to `p:v`.  (An identity entry `p:v -> p:v` of a flavor table makes `apply` consult the `generic` table, in the
+mapping and in its inverse: `C18_inverse_identity_witness`.) -/
+theorem C18_inverse_apply (m : Mapping) (h1 : OneToOne m) (h2 : Explicit m) :
+    ∃ inv, m.inverse = some inv ∧
+      ∀ f p v q w, lk m.map f p v = some (q, some w) → (p, v) ≠ (q, w) →
+        m.apply p v f = (q, some w) ∧ inv.apply q w f = (p, some v) := by
+  obtain ⟨inv, hinv, h⟩ := C18_inverse m h1 h2
+  refine ⟨inv, hinv, ?_⟩
+  intro f p v q w hlk hne
+  obtain ⟨ha, hb⟩ := h f p v q w hlk
+  have hne1 : ((q, some w) : Str × Option Str) ≠ (p, some v) := by
+    intro e; apply hne; cases e; rfl
+  have hne2 : ((p, some v) : Str × Option Str) ≠ (q, some w) := fun e => hne1 e.symm
+  constructor
+  · unfold Mapping.apply
+    simp only [ha]
+    have : (((q, some w) : Str × Option Str) == (p, some v)) = false := by simpa using hne1
+    simp [this]
+  · unfold Mapping.apply
+    simp only [hb]
+    have : (((p, some v) : Str × Option Str) == (q, some w)) = false := by simpa using hne2
+    simp [this]
+
+/-- **The hypothesis "not an identity" is needed at the level of `apply` (negation witness).**  The `Linux` table
+holds the identity `a:1 -> a:1`, the `generic` table `c:3 -> a:1`: the mapping is one-to-one (per flavor, as
+`inverse()` tests it) and explicit, `inverse()` succeeds, `apply` leaves `a:1` alone under `Linux` — and the
+inverse's `apply` takes `a:1` to `c:3`, because the identity makes it fall through to the `generic` table. -/
+theorem C18_inverse_identity_witness :
+    let m := buildMapping false [
+      { inP := [97], inV := [49], outP := some [97], outV := some [49], flavor := Str.ofString "Linux" },
+      { inP := [99], inV := [51], outP := some [97], outV := some [49], flavor := sGeneric }]
+    OneToOne m ∧ Explicit m ∧ m.apply [97] [49] (Str.ofString "Linux") = ([97], some [49]) ∧
+      (m.inverse.map fun inv => inv.apply [97] [49] (Str.ofString "Linux")) = some ([99], some [51]) := by
+  unfold OneToOne Explicit
+  decide
+
+/-- **"One-to-one" is needed (negation witness):** two entries of one flavor with the same image — `inverse()`
+raises (`none`); with the second entry under another flavor the mapping is one-to-one per flavor and the inverse
+exists. -/
+theorem C18_inverse_needs_one_to_one :
+    let r1 : Rule := { inP := [97], inV := [49], outP := some [99], outV := some [49], flavor := sGeneric }
+    let r2 : Rule := { inP := [98], inV := [49], outP := some [99], outV := some [49], flavor := sGeneric }
+    ¬ OneToOne (buildMapping false [r1, r2]) ∧ Explicit (buildMapping false [r1, r2]) ∧
+      (buildMapping false [r1, r2]).inverse.isNone = true ∧
+      OneToOne (buildMapping false [r1, { r2 with flavor := Str.ofString "Linux" }]) ∧
+      (buildMapping false [r1, { r2 with flavor := Str.ofString "Linux" }]).inverse.isSome = true := by
+  unfold OneToOne Explicit
+  decide
+
+/-- no entry is a wildcard: every in-version is a version, not the word `any` -/
+def NoAny (m : Mapping) : Prop := ∀ e ∈ entries m.map, e.2.2.1 ≠ sAny
+
+/-- **C18, inverse, for every product and version (not only for the table's own keys).**  For a one-to-one mapping
+of explicit versions without wildcards, every flavor `f`, every product `p` and *every* version `v`: if the table of
+`f` changes `p:v` into `q:w`, the inverse's table of `f` changes `q:w` back into `p:v`. -/
+theorem C18_inverse_undoes_changes (m : Mapping) (h1 : OneToOne m) (h2 : Explicit m) (h3 : NoAny m) :
+    ∃ inv, m.inverse = some inv ∧
+      ∀ f p v q w, m.apply1 p v f = (q, some w) → (q, w) ≠ (p, v) → inv.apply1 q w f = (p, some v) := by
+  obtain ⟨inv, hinv, h⟩ := C18_inverse m h1 h2
+  refine ⟨inv, hinv, ?_⟩
+  intro f p v q w ha hne
+  rw [apply1_eq] at ha
+  cases hp : prodTable m.map f p with
+  | none =>
+    simp only [hp] at ha
+    exact absurd (by cases ha; rfl) hne
+  | some byV =>
+    simp only [hp] at ha
+    split at ha
+    · cases ha
+    · cases hv : assocGet byV v with
+      | some r =>
+        simp only [hv] at ha
+        have hlk : lk m.map f p v = some (q, some w) := by simp [lk, hp, hv, ha]
+        exact (h f p v q w hlk).2
+      | none =>
+        simp only [hv] at ha
+        cases hany : assocGet byV sAny with
+        | some r =>
+          exfalso
+          have hlk : lk m.map f p sAny = some (r.1, r.2) := by simp [lk, hp, hany]
+          exact h3 _ (mem_entries_of_lk m.map f p sAny r.1 r.2 hlk) rfl
+        | none =>
+          simp only [hany] at ha
+          exact absurd (by cases ha; rfl) hne
+
+/-- **"No wildcard" is needed (negation witness):** `a:any -> b:2` is one-to-one and explicit, `inverse()` succeeds,
+`apply` takes `a:1` to `b:2` — and the inverse takes `b:2` to `a:any`, not back to `a:1`. -/
+theorem C18_inverse_needs_no_any :
+    let m := buildMapping false [{ inP := [97], inV := sAny, outP := some [98], outV := some [50], flavor := sGeneric }]
+    OneToOne m ∧ Explicit m ∧ ¬ NoAny m ∧ m.apply [97] [49] sGeneric = ([98], some [50]) ∧
+      (m.inverse.map fun inv => inv.apply [98] [50] sGeneric) = some ([97], some sAny) := by
+  unfold OneToOne Explicit NoAny
+  decide
+
+/-- Non-vacuity of `C18_inverse_undoes_changes`: a chain and a version bump, no wildcard. -/
+example :
+    let m := buildMapping false [
+      { inP := [97], inV := [49], outP := some [98], outV := some [50], flavor := sGeneric },
+      { inP := [98], inV := [50], outP := some [99], outV := some [51], flavor := sGeneric },
+      { inP := [120], inV := Str.ofString "1.0", outP := none, outV := some (Str.ofString "2.0"), flavor := sGeneric }]
+    OneToOne m ∧ Explicit m ∧ NoAny m ∧ m.apply1 [97] [49] sGeneric = ([98], some [50]) := by
+  unfold OneToOne Explicit NoAny
   decide
 
 /-! ## the server side: `DistribServer.getTaggedProductList` / `getTaggedProductInfo` and their cache -/
